@@ -122,7 +122,8 @@ def _mutants():
         txt = open(f).read()
         m = re.search(r'^#\s*property:\s*([C0-9, ]+)', txt, re.M)
         props = [p.strip() for p in m.group(1).split(',')] if m else []
-        out.append(dict(name=os.path.basename(f)[:-6], kind='mutant', patch=f, props=props, reverse=False))
+        eq = re.search(r'^#\s*equivalent:\s*(.*)$', txt, re.M)
+        out.append(dict(name=os.path.basename(f)[:-6], kind='mutant', patch=f, props=props, reverse=False, equivalent=(eq.group(1) if eq else None)))
     for d in sorted(glob.glob(os.path.join(ROOT, 'seeded', '*'))):
         meta = os.path.join(d, 'meta.json')
         pf = os.path.join(d, 'patch.diff')
@@ -196,14 +197,25 @@ def sensitivity(argv):
                     if '--all-props' not in argv:
                         break
             row['killed_by'] = killed_by
-            row['status'] = 'killed' if killed_by else 'SURVIVED'
+            row['status'] = 'killed' if killed_by else ('survived-equivalent' if mut.get('equivalent') else 'SURVIVED')
+            if mut.get('equivalent'):
+                row['equivalent_because'] = mut['equivalent']
             print('%-40s %-9s tests_pass=%s %s' % (mut['name'], row['status'], row.get('baseline_tests_pass'), json.dumps(row.get('checks'))[:200]), flush=True)
         finally:
             shutil.rmtree(d, ignore_errors=True)
         table.append(row)
+    path = os.path.join(runner.EVID, 'sensitivity.json')
+    if only and os.path.exists(path):
+        # partial run: merge the re-run rows into the stored table
+        old = json.load(open(path))
+        names = set(r['name'] for r in table)
+        table = [r for r in old.get('table', []) if r['name'] not in names] + table
     ev = dict(mutants=len(table), killed=sum(1 for r in table if r.get('status') == 'killed'), survived=[r['name'] for r in table if r.get('status') == 'SURVIVED'],
-              table=table, wall_s=round(time.time() - t0, 1))
-    if not only:
-        json.dump(ev, open(os.path.join(runner.EVID, 'sensitivity.json'), 'w'), indent=1)
+              survived_equivalent=[r['name'] for r in table if r.get('status') == 'survived-equivalent'],
+              patch_failed=[r['name'] for r in table if r.get('status') == 'patch-failed'],
+              invalid_because_unit_tests_fail=[r['name'] for r in table if r.get('baseline_tests_pass') is False],
+              table=table, wall_s=round(time.time() - t0, 1),
+              note='kinds: mutant = hand-written (/verif/mutants), seeded = written by an independent sub-agent (/verif/seeded), revert = the fix: commit reverted on HEAD; a revert whose patch no longer applies was superseded by a later fix touching the same lines and is covered by its regression replays (KNOWN_FINDINGS.txt)')
+    json.dump(ev, open(path, 'w'), indent=1)
     print('sensitivity: %d mutants, %d killed, survived: %s (%.0fs)' % (ev['mutants'], ev['killed'], ev['survived'], ev['wall_s']))
     return 0 if not ev['survived'] else 1
